@@ -1561,6 +1561,14 @@ class Cell(Bucket):
                 app.server = None
                 app.evicted = True
                 app.release_identity()
+            elif app.server and app.allocation is not None:
+                # App was assigned to different allocation (partition or
+                # traits), same as if the server was deleted.
+                server = servers[app.server]
+                if (app.allocation.label not in server.labels or
+                        not server.traits.has(app.traits)):
+                    server.remove(app.name)
+                    app.release_identity()
 
     def _record_rank_and_util(self, queue):
         """Set final rank and utilization for all apps in the queue.
